@@ -149,6 +149,21 @@ def run(ctx):
 def replay(ctx, path):
     binary = vlib.build(ctx, "c21")
     blob = json.load(open(path))["case"]
-    for r in vlib.run_harness(ctx, binary, cases=[blob["case"]]):
-        if r.get("mismatch"):
-            ctx.violation(blob, r["why"])
+    c = blob["case"]
+    bad = [r for r in vlib.run_harness(ctx, binary, cases=[c]) if r.get("mismatch")]
+    if not bad:
+        return
+    devs = vlib.open_devs(ctx.prop)
+    if devs:
+        # what does the model with exactly the currently open deviations say about this behaviour?
+        hit = []
+
+        def sink(x):
+            if key(x) == key(c):
+                hit.append(x)
+        vlib.tlc(ctx, "MCBuckets", cfg(len(c["decl"]), len(c["decl"]), len(c["obs"]), devs=devs, invs=["Emit"], props=False),
+                 label="Buckets-replay-devs", case_sink=sink, extra_files=MC)
+        if hit and bad[0]["got"]["maxes"] == hit[0]["maxes"] and bad[0]["got"]["steps"] == hit[0]["steps"]:
+            vlib.log("replayed behaviour is exactly what the open deviations %s predict: known finding, no violation" % devs)
+            return
+    ctx.violation(blob, bad[0]["why"])
